@@ -63,9 +63,9 @@ def systematic(i):
     n = i % 4
     fault_at = (i // 4) % 40
     kind = (i // 160) % 3       # crash / eio / enospc (the 'short' kind is drawn in the seeded part)
-    #       nimg nfiles  file names   sizes (100 bytes; index.wtml 300)   no sub-folder, fresh manager per attempt
+    #       nimg no-many-files nfiles  file names   sizes (100 bytes; index.wtml 300)   no sub-folder, fresh manager per attempt
     #       inject fault_at kind [no second fault]
-    return [0, n] + [0] * n + [2] * (n + 1) + [0, 0] + [0, fault_at, kind, 0]
+    return [0, 0, n] + [0] * n + [2] * (n + 1) + [0, 0] + [0, fault_at, kind, 0]
 
 
 IO_ERRNOS = [errno.EIO, errno.ESTALE, errno.ETIMEDOUT, errno.EAGAIN, errno.EBUSY, errno.EACCES, errno.EINTR, errno.ECONNRESET, errno.EROFS, errno.EDQUOT]
@@ -396,6 +396,8 @@ def run_one(ch, env):
     with open(os.path.join(work, "toasty-pipeline-config.yaml"), "w") as f:
         f.write("source_type: verif-stub\nverif_stub: {}\n")
     nimg = 1 + ch.draw(3, p0=0.5, kind="nimg")
+    # one history in forty has an image with a few hundred files (a tiled image: anything done 'per hundred files')
+    many_files = ch.draw(40, kind="image_with_many_files") == 39
     images = {}
     has_subfolder = []
     for i in range(nimg):
@@ -418,6 +420,10 @@ def run_one(ch, env):
             for n in ("tiles/L1X0Y0.png", "tiles/L1X1Y0.png", "tiles/deep/x.bin")[:1 + ch.draw(3, kind="n_nested")]:
                 files[n] = file_bytes(uid, n, (100, 5000, 70000)[ch.draw(3, kind="nested_size")])
             has_subfolder.append(uid)
+        if many_files and i == 0:
+            for k in range(101 + ch.draw(200, kind="n_many_files")):
+                n = "L3X%dY%d.png" % (k % 8, k // 8)
+                files[n] = file_bytes(uid, n, 10)
         images[uid] = files
         os.makedirs(os.path.join(work, "approved", uid))
         for n, b in files.items():
@@ -430,7 +436,7 @@ def run_one(ch, env):
     c.root = d
     _ctl[0] = c
     res = {"config": {"images": {u: {n: len(b) for n, b in fs.items()} for u, fs in images.items()}, "attempts": []},
-           "extra": {"nimg_%d" % nimg: 1}}
+           "extra": {"nimg_%d" % nimg: 1, "image_with_many_files": int(many_files)}}
     violation = None
     faulted_images = {}
     try:
@@ -448,6 +454,8 @@ def run_one(ch, env):
             kind = None
             if faulty_allowed and ch.draw(8, kind="inject") != 7:
                 fault_at = 1 + ch.draw(72, kind="fault_at")
+                if many_files and ch.draw(4, kind="fault_late") != 0:
+                    fault_at = 1 + ch.draw(2400, kind="fault_at_late")      # somewhere in the hundreds of transfers
                 kind = ("crash", "eio", "enospc", "short")[ch.draw(4, p0=0.55, kind="fault_kind")]
             second = None
             if fault_at is not None and kind != "crash" and ch.draw(5, kind="second_fault") == 4:
